@@ -437,6 +437,92 @@ def _has_own_yield(fn):
     return False
 
 
+def _snapshot(args, kwargs, f):
+    """Record the mutable state reachable from the arguments of a call: attribute tables of repository objects, dicts
+    (with their key order), lists, sets and the element tables of arrays (item assignment replaces the table)."""
+    recs = []
+    seen = set()
+    names = []
+    a = getattr(f.node, "args", None)
+    if a is not None:
+        names = [x.arg for x in list(a.posonlyargs) + list(a.args)]
+
+    def walk(v, path, depth):
+        if depth > 6 or id(v) in seen:
+            return
+        if isinstance(v, Obj):
+            seen.add(id(v))
+            attrs = object.__getattribute__(v, "attrs")
+            recs.append(("obj", path, v, list(attrs.items())))
+            for k, x in list(attrs.items()):
+                walk(x, "%s.%s" % (path, k), depth + 1)
+        elif isinstance(v, dict):
+            seen.add(id(v))
+            recs.append(("dict", path, v, list(v.items())))
+            for k, x in list(v.items()):
+                walk(x, "%s[%r]" % (path, k), depth + 1)
+        elif isinstance(v, (list, set)):
+            seen.add(id(v))
+            recs.append(("seq", path, v, list(v)))
+            if isinstance(v, list):
+                for i, x in enumerate(v):
+                    walk(x, "%s[%d]" % (path, i), depth + 1)
+        elif isinstance(v, tuple):
+            for i, x in enumerate(v):
+                walk(x, "%s[%d]" % (path, i), depth + 1)
+        elif isinstance(v, Arr):
+            seen.add(id(v))
+            recs.append(("arr", path, v, (v.elems, v.shape)))
+
+    for i, v in enumerate(args):
+        walk(v, names[i] if i < len(names) else "arg%d" % i, 0)
+    for k, v in kwargs.items():
+        walk(v, k, 0)
+    return recs
+
+
+def _changed(recs):
+    out = []
+    for kind, path, v, old in recs:
+        if kind == "obj":
+            cur = list(object.__getattribute__(v, "attrs").items())
+        elif kind == "dict":
+            cur = list(v.items())
+        elif kind == "seq":
+            cur = list(v)
+        else:
+            if v.elems is not old[0] or v.shape != old[1]:
+                out.append("%s (array written in place)" % path)
+            continue
+        if len(cur) != len(old):
+            out.append("%s (%d -> %d entries)" % (path, len(old), len(cur)))
+            continue
+        for a, b in zip(old, cur):
+            if kind == "seq":
+                if a is not b and a != b:
+                    out.append("%s (element replaced)" % path)
+                    break
+            else:
+                if a[0] != b[0]:
+                    out.append("%s (key order / key set changed: %r -> %r)" % (path, a[0], b[0]))
+                    break
+                if a[1] is not b[1] and not _same_value(a[1], b[1]):
+                    out.append("%s%s (re-bound)" % (path, (".%s" % a[0]) if kind == "obj" else "[%r]" % (a[0],)))
+                    break
+    return out
+
+
+def _same_value(a, b):
+    if type(a) is not type(b):
+        return False
+    if isinstance(a, (int, str, bool, tuple, float, type(None))) or _is_exact_num(a):
+        try:
+            return a == b
+        except Exception:
+            return False
+    return False
+
+
 class Interp(object):
     def __init__(self, repo_root, shims, src_rel="src"):
         self.repo_root = repo_root
@@ -453,6 +539,7 @@ class Interp(object):
         self.builtins = self._make_builtins()
         self.pytree_classes = set()
         self.jit_roundtrip = True
+        self.mutations = set()  # PURITY: (module, qualname, what) of in-place changes to the arguments of harness-level calls
 
     # ------------------------------------------------------------------ modules
     def module_path(self, name):
@@ -713,6 +800,17 @@ class Interp(object):
 
     # ------------------------------------------------------------------ calls
     def call_func(self, f, args, kwargs):
+        # PURITY guard: a call made by the harness (empty interpreter stack) is a call of the public API under analysis;
+        # what it does in place to the objects it was handed is recorded (see purity.py for the rule and the contract table)
+        if self.stack or self.mutations is None or isinstance(f.node, ast.Lambda):
+            return self._call_func(f, args, kwargs)
+        snap = _snapshot(args, kwargs, f)
+        out = self._call_func(f, args, kwargs)
+        for what in _changed(snap):
+            self.mutations.add((f.module.__dict__["name"], f.qualname, what, f.module.__dict__["path"], getattr(f.node, "lineno", None)))
+        return out
+
+    def _call_func(self, f, args, kwargs):
         node = f.node
         if f.is_generator is None:
             f.is_generator = _has_own_yield(node) if not isinstance(node, ast.Lambda) else False
@@ -722,7 +820,7 @@ class Interp(object):
             prev = (getattr(self, "_running_generator", None), getattr(self, "_yielded", None))
             self._running_generator, self._yielded = f, []
             try:
-                self.call_func(f, args, kwargs)
+                self._call_func(f, args, kwargs)
                 out = self._yielded
             finally:
                 self._running_generator, self._yielded = prev
